@@ -1,6 +1,7 @@
 """C17 — pickle and deepcopy reproduce a LASFile exactly, duplicates included."""
 import copy
 import glob
+import hashlib
 import io
 import os
 import pickle
@@ -248,16 +249,23 @@ def nontrivial(obj):
     return obj.mnemonic != obj.original_mnemonic
 
 
+ROT = [0]
+
+
 def check_object(run, obj, label, origin, rng, level):
-    """oracle on one object x all methods; returns the (object, method, copy) triples for the correspondence"""
+    """oracle on one object x all methods; returns the (method, copy, dump) triples for the correspondence.
+    write() normalises the object it writes (STRT/STOP/STEP follow the index curve), so the copy is taken and dumped BEFORE either
+    object is written, and both are written from the same state; the method that meets the pristine object rotates."""
     import lasio
-    before = dump(obj)
-    text = written(obj) if isinstance(obj, lasio.LASFile) else None
+    is_las = isinstance(obj, lasio.LASFile)
+    ROT[0] += 1
+    methods = METHODS[ROT[0] % len(METHODS):] + METHODS[:ROT[0] % len(METHODS)]
     out = []
-    for method in METHODS:
+    for method in methods:
         mname = "%s%s" % (method[0], "" if method[1] is None else method[1])
         case = {"object": label, "origin": origin, "method": mname, "level": level}
         run.case(case, nontrivial=nontrivial(obj), tags=[level, mname, origin.split(":")[0]])
+        before = dump(obj)
         try:
             c = clone(obj, method)
         except Exception as e:
@@ -266,21 +274,24 @@ def check_object(run, obj, label, origin, rng, level):
         after = dump(c)
         if after != before:
             run.fail("observably-equal", case, diff(before, after))
-        if text is not None:
-            t2 = written(c)
-            if t2 != text:
-                run.fail("write-identical", case, first_diff(text, t2))
-        out.append((method, c, dump(c)))
+        out.append((method, c, after))
+        if is_las:
+            t_copy, t_orig = written(c), written(obj)
+            if t_copy != t_orig:
+                run.fail("write-identical", case, first_diff(t_orig, t_copy))
+            if dump(c) != dump(obj):
+                run.fail("observably-equal-after-write", case, diff(dump(obj), dump(c)))
+        before = dump(obj)
         c2 = clone(obj, method)
         try:
             mutate(c2, rng)
         except Exception as e:
-            run.notes.append("mutate raised %r" % (e,)) if len(run.notes) < 5 else None
+            if len(run.notes) < 5:
+                run.notes.append("mutate raised %r" % (e,))
         now = dump(obj)
         if now != before:
             run.fail("independent", case, diff(before, now))
-            before = now
-        if text is not None and written(obj) != text:
+        if is_las and written(obj) != t_orig:
             run.fail("independent-write", case, None)
     return out
 
@@ -314,24 +325,32 @@ PATH = {"pickle0": "pickle01", "pickle1": "pickle01", "pickle2": "pickle2plus", 
         "pickle5": "pickle2plus", "deepcopy": "deepcopy"}
 
 
+def short(t):
+    """tags are opaque to the model: long ones (big arrays) are sent as a digest to keep the request lines small"""
+    if t is not None and len(t) > 200:
+        return "sha1:" + hashlib.sha1(t.encode("utf-8", "surrogatepass")).hexdigest()
+    return t
+
+
 def item_req(it):
     from lasio import CurveItem
-    return {"op": "cp.item", "item": [it.original_mnemonic, it.mnemonic, vtag(it.unit), vtag(it.value), vtag(it.descr)],
-            "data": atag(getattr(it, "data", None)), "curve": isinstance(it, CurveItem), "old": False}
+    return {"op": "cp.item", "item": [it.original_mnemonic, it.mnemonic, short(vtag(it.unit)), short(vtag(it.value)), short(vtag(it.descr))],
+            "data": short(atag(getattr(it, "data", None))), "curve": isinstance(it, CurveItem), "old": False}
 
 
 def item_real(d):
     # item_dump -> the model's answer shape
-    return [d[1], d[2], d[3], d[4], d[5], d[6], d[0] == "CurveItem"]
+    return [d[1], d[2], short(d[3]), short(d[4]), short(d[5]), short(d[6]), d[0] == "CurveItem"]
 
 
 def section_req(sec, path):
     return {"op": "cp.section", "path": path, "tr": bool(sec.mnemonic_transforms),
-            "items": [[i.original_mnemonic, i.mnemonic, vtag(i.unit), vtag(i.value), vtag(i.descr)] for i in list.__iter__(sec)]}
+            "items": [[i.original_mnemonic, i.mnemonic, short(vtag(i.unit)), short(vtag(i.value)), short(vtag(i.descr))]
+                      for i in list.__iter__(sec)]}
 
 
 def section_real(d):
-    return {"tr": d["tr"], "items": [[i[1], i[2], i[3], i[4], i[5]] for i in d["items"]]}
+    return {"tr": d["tr"], "items": [[i[1], i[2], short(i[3]), short(i[4]), short(i[5])] for i in d["items"]]}
 
 
 class Tie:
@@ -340,7 +359,7 @@ class Tie:
 
     def add(self, stream, case, req, real, in_domain=True):
         self.batch.append((stream, case, req, real, in_domain))
-        if len(self.batch) >= 256:
+        if len(self.batch) >= 128:
             self.flush()
 
     def flush(self):
@@ -429,9 +448,9 @@ def run(run):
     for k, las in zip(("plain", "case"), stale):
         process_las(run, tie, las, "stale:" + k, rng)
     call_pattern(run, [s for las in stale for s in las.sections.values() if isinstance(s, lasio.SectionItems)])
-    for n in range(run.budget(60, 1500)):
+    for n in range(run.budget(250, 2500)):
         process_las(run, tie, gen_las(rng), "generated:%d" % n, rng)
-    for n in range(run.budget(40, 800)):
+    for n in range(run.budget(150, 1500)):
         text = gen_text(rng)
         mcase = rng.choice(["upper", "preserve", "lower"])
         try:
